@@ -1,4 +1,4 @@
 \* exhaustive, price focus, thorough tier: 3 types, 1..2 removed nodes, prices {1,2}, zone zb overlay-priced (+2)
-CONSTANTS NTypes = 3  Prices = {1, 2}  ZMods = {"dear"}  MaxCands = 2  MinS2S = 2  Focus = "price"  Weak = ""  GenMod = 1  GenRes = 0
+CONSTANTS NTypes = 3  Prices = {1, 2}  ZMods = {"dear"}  MaxCands = 2  MinS2S = 2  Focus = "price"  UnavCTs = {}  Weak = ""  GenMod = 1  GenRes = 0
 SPECIFICATION Spec
 INVARIANTS TypeOK Inv_C06_CostDecreases Inv_C06_AtMostOneLaunch Inv_C06_SpotToSpotFeature Inv_C06_SpotToSpotAlternatives Inv_C06_SpotToSpotSettles Inv_C06_NotWorseThanKeeping Inv_C06_EmptyHarmless Inv_C06_PodsSchedulable
